@@ -200,6 +200,7 @@ fn alpha(cfg: &Cfg) -> Vec<Op> {
     v.push(Op::resize(1, 1).kind(Kind::ResizeDrop));
     v.push(Op::resize(17, 2));
     v.push(Op::resize(2, 9));
+    v.push(t("bcd").kind(Kind::FeedSplit));
     v
 }
 
@@ -213,7 +214,7 @@ fn second_ops() -> Vec<Op> {
         c(Cmd::DecRst(vec![1049])),
         Op::resize(1, 1),
         Op::resize(3, 3),
-        Op::raw("\x1b[65535b"),
+        Op::raw("\x1b[300b"),
     ]
 }
 
@@ -336,8 +337,8 @@ macro_rules! parts {
                 Tier::Thorough => cfgs(S4, &[None, Some(0), Some(1), Some(10)]),
             },
             alphabet: &alpha,
-            depth: tier.pick(2, 4),
-            seconds: tier.pick(30.0, 2400.0),
+            depth: tier.pick(3, 4),
+            seconds: tier.pick(45.0, 2400.0),
             validated: false,
             nontrivial: None,
         }
@@ -366,8 +367,13 @@ fn deep_part<'a>(tier: Tier, sys: &'a Sys) -> Part<'a, Sys> {
 }
 
 fn make_sys(tier: Tier) -> Sys {
+    let mut extreme = a_extreme();
+    // sizes far from the tiny ones (the work is still what the call requests)
+    for (c, r) in [(300, 1), (1, 300), (120, 50), (1000, 2), (2, 1000)] {
+        extreme.push(Op::resize(c, r));
+    }
     Sys {
-        extreme: a_extreme(),
+        extreme,
         extreme_depth: tier.pick(1, 2),
         second: second_ops(),
     }
